@@ -52,7 +52,7 @@ CLAIMS = {
  "C10": ("type-directed hash-order detection on MIR (receiver types embed their source iterator) + frozen classification table + total-sort recognition",
          "Every consumer of a std hash_map/hash_set iterator in non-test code is order-insensitive by nature, sorted on a key that identifies the element, or tabled safe "
          "with a reason; containers whose order reaches output are insertion-ordered; the CLI emitter prints diagnostics in collection order. A new unclassified site is "
-         "reported. Environment nondeterminism is not decided.", "§4 C10"),
+         "reported; a walk in hash order branches on no first-come membership answer (visited-sets), so tabled reasons stay true. Environment nondeterminism is not decided.", "§4 C10"),
  "C11": ("must-pass-through on MIR + two interprocedural label propagations (target vs physical address space)",
          "Single emission choke point with a source-map entry of exactly the emitted length on every path; no comparison or subtraction mixes a target-space address with "
          "a physical one without the relocation offset; macro re-attribution only under the listing option and by position; half-open address lookups; no context field is overwritten before and read after a nested activation of the code generator without being restored (re-entrancy analysis); listing rows are cut at address gaps, read from the entry's own segment and written to distinct files; the row without bytes and the rows with bytes are decided on the same collection (every source line gets a row); no collection there is keyed by a target address alone. Row layout on concrete programs is not decided.", "§4 C11"),
